@@ -42,8 +42,11 @@ package adder
 //@   modifies heap(BlockAdder)
 
 // the pin sent for added content: "-1 means everywhere": allocations emptied
+// clusterPinN: calls of adder.Pin (the Cluster.Pin RPC that records an entry in the shared pinset)
+//@ ghost var clusterPinN int
 //@ func Pin
 //@   property C13
+//@   counts clusterPinN when true
 //@   ensures rpcN == old(rpcN) + 1 && rpcLastSvc == "Cluster" && rpcLastMethod == "Pin" && rpcLastArg == any(pin)
 //@   ensures pin.ReplicationFactorMin < 0 ==> len(pin.Allocations) == 0
 //@   ensures pin.ReplicationFactorMin >= 0 ==> pin.Allocations == old(pin.Allocations)
@@ -63,3 +66,12 @@ package adder
 //@ func (a *Adder) FromMultipart
 //@   opts trusted
 //@   modifies nothing
+
+// putting a list of blocks: assumed here (it is a loop of Add); addManyN / addManyOK: calls made / calls that returned nil
+//@ ghost var addManyN int
+//@ ghost var addManyOK int
+//@ func (ba *BlockAdder) AddMany
+//@   opts trusted
+//@   counts addManyN when true
+//@   counts addManyOK when err == nil
+//@   modifies rpcN, rpcLastSvc, rpcLastMethod, rpcLastArg
